@@ -57,6 +57,12 @@ def gen_text(rng):
     r = rng.random()
     g = gen_prog.Gen(rng, gen_prog.World.generate(rng), {'nested_defs': 3})
     t = g.gen_script(rng.randint(1, 5))[0]
+    if r < 0.1:
+        # a text that breaks a rule (or a short one whose fate hangs on the context: break, return, end, a bare name): it is
+        # rejected -- or accepted -- whatever the compiler object has seen before (an opened loop, routine, block ...)
+        import rulebreakers
+        frags = [f for fl in rulebreakers.FRAGMENTS.values() for f in fl] + ['end', 'break', 'return 5', 'stage row 0', 'hue a', 'hue i', 'print x', 'f 1', 'set x']
+        return 'rule-breaker', rng.choice(frags) + '\n'
     if r < 0.35:
         return 'valid', t
     if r < 0.5:
